@@ -245,7 +245,10 @@ def txn_steps(draw, st, nparts, n_txn):
             subs.append(sub)
         body.append(["par", subs] if ntasks > 1 else ["par", [subs[0]]])
         if draw(st.integers(0, 2)) == 0:
-            body.append(["offsets", {str(draw(st.integers(0, 1))): draw(st.integers(0, 50))}, "g"])
+            offs = {str(draw(st.integers(0, 1))): draw(st.integers(0, 50))}
+            if draw(st.booleans()):
+                offs[str(2)] = draw(st.integers(0, 50))
+            body.append(["offsets", offs, "g"])
             if draw(st.booleans()):
                 body.append(["send", draw(st.integers(0, nparts - 1)), 0, False])
         end = draw(st.sampled_from(["commit", "commit", "abort"]))
